@@ -73,12 +73,16 @@ func (fr *frame) execCall(call *ssa.Call, c *ssa.CallCommon, st *State, reach st
 				return fr.callStatic(m, append([]*Val{recv.boxed}, args...), nil, st, reach, pos, c)
 			}
 		}
+		if v := fr.devirtualise(c, recv, args, resT, st, reach, pos); v != nil {
+			return v
+		}
 		return fr.callDynamic(c.Method.FullName(), append([]*Val{recv}, args...), c, resT, st, reach, pos)
 	}
 	for _, a := range c.Args {
 		args = append(args, fr.valOf(a))
 	}
-	if call != nil {
+	_, isBuiltin := c.Value.(*ssa.Builtin)
+	if call != nil && (c.StaticCallee() != nil || isBuiltin) {
 		fr.callSiteAsserts(call, args, st, reach)
 	}
 	switch v := c.Value.(type) {
@@ -91,13 +95,44 @@ func (fr *frame) execCall(call *ssa.Call, c *ssa.CallCommon, st *State, reach st
 		return fr.callStatic(cv.fn, args, cv.bindings, st, reach, pos, c)
 	}
 	fv := fr.valOf(c.Value)
+	if call != nil {
+		fr.callSiteAsserts(call, append([]*Val{fv}, args...), st, reach)
+	}
 	if fv.fn != nil {
 		return fr.callStatic(fv.fn, args, fv.bindings, st, reach, pos, c)
 	}
 	if !fr.pure {
 		u.oblige(fr.obName("nil", fr.describe(c.Value, 0)+"()"), "nil", nil, reach, fmt.Sprintf("(not (= %s 0))", fv.t), fr.pos(pos), "")
 	}
-	return fr.callDynamic("func:"+fr.describe(c.Value, 0), append([]*Val{fv}, args...), c, resT, st, reach, pos)
+	return fr.callDynamic(funcValueKey(fr, c.Value), append([]*Val{fv}, args...), c, resT, st, reach, pos)
+}
+
+// funcValueKey names a dynamically called function value: struct fields are keyed by type and field
+// name (stable under renaming of locals), everything else by a description of the expression.
+func funcValueKey(fr *frame, v ssa.Value) string {
+	tn := func(t types.Type) string {
+		if p, ok := t.Underlying().(*types.Pointer); ok {
+			t = p.Elem()
+		}
+		if n, ok := t.(*types.Named); ok && n.Obj().Pkg() != nil {
+			return n.Obj().Pkg().Name() + "." + n.Obj().Name()
+		}
+		return t.String()
+	}
+	switch x := v.(type) {
+	case *ssa.Field:
+		st := x.X.Type().Underlying().(*types.Struct)
+		return "field:" + tn(x.X.Type()) + "." + st.Field(x.Field).Name()
+	case *ssa.UnOp:
+		if fa, ok := x.X.(*ssa.FieldAddr); ok && x.Op == token.MUL {
+			st := fa.X.Type().Underlying().(*types.Pointer).Elem().Underlying().(*types.Struct)
+			return "field:" + tn(fa.X.Type()) + "." + st.Field(fa.Field).Name()
+		}
+		if g, ok := x.X.(*ssa.Global); ok && x.Op == token.MUL {
+			return "var:" + g.Pkg.Pkg.Name() + "." + g.Name()
+		}
+	}
+	return "func:" + fr.describe(v, 0)
 }
 
 // callDynamic: the callee is not known statically (interface method, function value).
@@ -160,6 +195,11 @@ func (fr *frame) callStatic(fn *ssa.Function, args []*Val, bindings []*Val, st *
 	var resT types.Type = fn.Signature.Results()
 	if fn.Signature.Results().Len() == 1 {
 		resT = fn.Signature.Results().At(0).Type()
+	}
+	if fn.Synthetic == "package initializer" {
+		// initialisation of other packages is outside the unit
+		u.abstract("package-init-call")
+		return &Val{t: "0"}
 	}
 	// spec builtins and ghost functions (bodyless declarations in the spec overlay)
 	if isRepoFunc(fn) && len(fn.Blocks) == 0 && fn.Synthetic == "" {
@@ -530,6 +570,8 @@ func (fr *frame) callSpecBuiltin(fn *ssa.Function, args []*Val, resT types.Type,
 			return &Val{t: fmt.Sprintf("(forall ((%s Int)) (=> %s %s))", k, rng, body)}
 		}
 		return &Val{t: fmt.Sprintf("(exists ((%s Int)) (and %s %s))", k, rng, body)}
+	case "sameSlice":
+		return &Val{t: eq(args[0].t, args[1].t)}
 	case "ns":
 		return args[0]
 	case "nsToTime":
@@ -656,4 +698,46 @@ func (fr *frame) builtinAppend(c *ssa.CallCommon, args []*Val, st *State, reach 
 	u.assume(reach, fmt.Sprintf("(>= %s %s)", nc, nl))
 	u.abstract("append-reallocates")
 	return &Val{t: u.define("app", "Slice", fmt.Sprintf("(mk-slice %s 0 %s %s)", arr, nl, nc))}
+}
+
+
+// devirtualise: an interface method call whose /repo implementations are all small side-effect-free
+// accessors is resolved by a case split on the dynamic type tag; other dynamic types stay arbitrary.
+func (fr *frame) devirtualise(c *ssa.CallCommon, recv *Val, args []*Val, resT types.Type, st *State, reach string, pos token.Pos) *Val {
+	u := fr.u
+	if _, isTuple := resT.(*types.Tuple); isTuple || len(args) > 0 {
+		return nil
+	}
+	if u.eng.externs[c.Method.FullName()] != nil {
+		return nil
+	}
+	impls := u.eng.accessorImpls(c.Method)
+	if len(impls) == 0 {
+		return nil
+	}
+	// foreign implementations of an accessor are assumed deterministic (a function of the receiver)
+	dflt := fr.ufApply("dyn:"+c.Method.FullName(), []types.Type{c.Value.Type()}, []*Val{recv}, resT, st)
+	if !fr.pure {
+		fr.assumeWF(resT, dflt.t, st, reach)
+		u.dynCalls[c.Method.FullName()+" (other dynamic types: deterministic accessor)"] = true
+	}
+	term := dflt.t
+	for _, im := range impls {
+		tag := u.sorts.typeID(im.recvT)
+		var rv *Val
+		if isPointerLike(im.recvT) {
+			rv = &Val{t: fmt.Sprintf("(i-val %s)", recv.t)}
+		} else {
+			_, unbox := fr.boxFns(im.recvT)
+			rv = &Val{t: fmt.Sprintf("(%s (i-val %s))", unbox, recv.t)}
+		}
+		nf := u.newFrame(im.fn, fr.depth+1, true, fr.prefix)
+		nf.binders = fr.binders
+		res, _, _ := nf.run([]*Val{rv}, nil, st, "true")
+		if len(res) != 1 {
+			return nil
+		}
+		term = ite(fmt.Sprintf("(= (i-tag %s) %d)", recv.t, tag), res[0].t, term)
+	}
+	return &Val{t: fr.def("devirt", resT, term)}
 }
